@@ -15,7 +15,11 @@ RULE = ('single dense datasets (with/without features, curated or not, ids witho
         'index of the previous probe + 1)) and datasets merged from 1..4 probes with permuted channel maps and EXACTLY REPRESENTABLE '
         'value tokens per probe (integer template samples with a per-probe peak value, dyadic amplitudes, power-of-two diagonal whitening): '
         'waveforms, amplitudes, depths and durations of merged sources are judged like those of single datasets; a label on about a third '
-        'of all exports (single, merged, two-exports); each converted with the real '
+        'of all exports (single, merged, two-exports); LONG RECORDINGS: narrow, short single datasets whose spike count lies beside a '
+        'multiple of the 50000-spike batch of get_depths (one more than a batch in every run [corpus], one of batch-1 .. batch+2 per quick run, '
+        'all neighbours of 1 and 2 batches in the thorough tier; with features: every spike of spikes.depths against the Lean '
+        'feature-weighted depth, without (thorough tier): against the cluster depth; spikes.amps and every other file judged as usual; the case '
+        'stores a small spec + the spike count, expanded identically for the real export and the model); each converted with the real '
         'EphysAlfCreator. non-trivial = every case; merged cases with >= 3 probes are forced first')
 ASSUMPTIONS = ['amplitude chain / durations / feature depths are the exact-arithmetic C09 model; float32 outputs compared '
                'with relative tolerance 1e-6, float64 multi-step chains with 1e-9',
@@ -23,7 +27,32 @@ ASSUMPTIONS = ['amplitude chain / durations / feature depths are the exact-arith
                'predicate on the real rows']
 
 
+# get_depths (model.py:1120), the source of spikes.depths when every spike has a feature row, works through the spikes
+# in batches of this many: recordings whose spike count lies beside a multiple of it are generated (`long_recording`)
+DEPTH_BATCH = 50000
+
+
+def _expand(case):
+    """`long: {n_spikes: N}` stands for a LONG RECORDING of N spikes (tens of thousands: more than one internal batch
+    of get_depths): the per-spike arrays of the small `spec` (templates, amplitudes, assignments, feature rows) are
+    repeated with a drifting phase up to N spikes, the spike samples strictly increase. The case itself (corpus file,
+    replay, digest) stays small; every consumer (real export, model query, judge, tally) sees the same expanded spec."""
+    lg = case.get('long')
+    if not lg or case.get('_expanded'):
+        return case
+    spec = case['spec']
+    n0, n = len(spec['spike_templates']), int(lg['n_spikes'])
+    idx = [(i + i // 997) % n0 for i in range(n)]
+    out = dict(spec)
+    for k in ('spike_templates', 'spike_clusters', 'amplitudes', 'pc_features'):
+        if spec.get(k) is not None:
+            out[k] = [spec[k][j] for j in idx]
+    out['spike_samples'] = [3 * i + (i % 2) for i in range(n)]
+    return dict(case, spec=out, _expanded=True)
+
+
 def impl(case):
+    case = _expand(case)
     if case.get('twice'):
         return _run_twice(case)
     return A.run_export(case)
@@ -85,6 +114,7 @@ def _arr(ok, stem, label):
 def model_query(case, impl_res):
     if 'ok' not in impl_res:
         return dict(p=PID, op='rawind', maps=[[0, 1]])
+    case = _expand(case)
     ok = impl_res['ok']
     sm = ok['src_model']
     label = case.get('label', '')
@@ -134,8 +164,9 @@ def model_query(case, impl_res):
     # peak channels of the TEMPLATES (they select the rows of templates.waveformsChannels and are not exported
     # themselves): recomputed by the C09 model from the stored template waveforms
     qs.append(dict(p='C09', op='channels', wfs=DC.fracs(sm['templates']), rate=DC.frac(rate)))
-    if spec is not None:
-        # cluster waveforms of the source model against the C08 model (curated datasets)
+    if spec is not None and not (case.get('long') and sc_ == st_):
+        # cluster waveforms of the source model against the C08 model (read by the judge for CURATED datasets only; not
+        # asked for a long un-curated recording, where the C08 model walks the spikes once per cluster and template)
         st8 = spec['spike_templates']
         qs.append(dict(p='C08', op='clusters', W=DC.fracs(spec['templates']), chans=sm['chans_w'], st=st8,
                        sc=spec.get('spike_clusters') or st8, ns=len(spec['templates'][0]), nc=spec['n_channels']))
@@ -201,6 +232,7 @@ def judge(case, impl_res, ans):
     if 'raised' in impl_res:
         return 'SPEC: ALF conversion raised %s (%s) at %s on an in-domain dataset' % (
             impl_res['raised'], impl_res['msg'], impl_res['where'])
+    case = _expand(case)
     ok = impl_res['ok']
     sm = ok['src_model']
     res = ans['ok']['res']
@@ -346,9 +378,11 @@ def judge(case, impl_res, ans):
         # (a merged source with a feature store: its feature rows are not an input of this check)
         return raw_finding
     if sd is None or sd['shape'] != [len(sm['spike_clusters'])] or not _close(sd['vals'], exp_sd, 1e-6):
-        return 'SPEC: spikes.depths differ from %s' % (
+        bad = [i for i, (x, y) in enumerate(zip((sd or {}).get('vals') or [], exp_sd)) if not _close([x], [y], 1e-6)]
+        return 'SPEC: spikes.depths differ from %s: shape %s for %d spikes, %d differing spike(s), first at %s: %s vs %s' % (
             'the feature-weighted channel depths (NaN where no positive weight)' if res[I_DEP]['from_features']
-            else 'the cluster depths (no feature row for every spike)')
+            else 'the cluster depths (no feature row for every spike)', sd and sd['shape'], len(exp_sd), len(bad), bad[:3],
+            [sd['vals'][i] for i in bad[:3]], [exp_sd[i] for i in bad[:3]])
     return raw_finding
 
 
@@ -357,6 +391,12 @@ def nontrivial(case):
 
 
 def tally(rep, case, impl_res, ans):
+    if case.get('long'):
+        n = int(case['long']['n_spikes'])
+        k, r = (n + DEPTH_BATCH // 2) // DEPTH_BATCH, n - (n + DEPTH_BATCH // 2) // DEPTH_BATCH * DEPTH_BATCH
+        rep.count('long_recording: %d x depth batch (%d spikes) %+d, features:%s' % (
+            k, DEPTH_BATCH, r, case['spec'].get('pc_features') is not None))
+    case = _expand(case)
     if case.get('spec'):
         rep.count('positions_dtype:' + (case['spec'].get('dtypes') or {}).get('channel_positions', 'float64'))
     if case.get('probes'):
@@ -423,11 +463,29 @@ def _exact_tokens(rng, probes):
     return probes
 
 
+def long_case(rng, n, feats=True, factor=1, label=''):
+    """a narrow, short, un-curated dataset (2..3 templates / channels, 2 samples, no whitening) of `n` spikes"""
+    spec = DC.dense_spec(rng, nt=rng.randrange(2, 4), nc=rng.randrange(2, 4), ns=rng.randrange(7, 14), nsw=2, curated=False,
+                         whiten='none', feats=feats, empty='none', shanks=False)
+    for k in ('extra_npy', 'params_extra', 'template_scaling'):
+        spec.pop(k, None)
+    return dict(p=PID, spec=spec, long=dict(n_spikes=n), factor=factor, label=label, n_closest=2, rs=0)
+
+
 def gen(tier, rng):
     q = tier == 'quick'
     for j, ncs in enumerate(((4, 6, 5), (2, 3, 5, 2), (3, 3))):
         probes = [M.probe_spec(rng, k, nc=nc, nt=2 + k % 2, tdtype='uint64', idtype='uint32') for k, nc in enumerate(ncs)]
         yield dict(p=PID, probes=_exact_tokens(rng, probes), exact_tokens=True, factor=[1, 2.5, 1][j], label=['', 'probe01', ''][j])
+    # long recordings: spike counts beside a multiple of get_depths' batch. One more than a batch (a last batch of a single
+    # spike) is in the corpus, i.e. in every run; the quick tier adds one neighbour of one batch per run, the thorough tier all
+    # neighbours of 1 and 2 batches; narrow and short datasets with features (feature-weighted depths; in the thorough tier
+    # also without: cluster depths)
+    beside = [rng.pick([DEPTH_BATCH - 1, DEPTH_BATCH, DEPTH_BATCH + 1, DEPTH_BATCH + 2])] if q else [
+        DEPTH_BATCH + 1, DEPTH_BATCH - 1, DEPTH_BATCH, DEPTH_BATCH + 2, 2 * DEPTH_BATCH - 1, 2 * DEPTH_BATCH,
+        2 * DEPTH_BATCH + 1, 2 * DEPTH_BATCH + 2]
+    for j, n in enumerate(beside):
+        yield long_case(rng, n, feats=(q or j % 4 != 3), factor=[1, 2.5][j % 2], label=['', 'probe00'][j % 3 == 2])
     # one creator object, two conversions in a row with different unit factors
     pairs = [(1, 2.34375e-06), (2.5, 0.5), (1, 0.5), (2.34375e-06, 1), (1, 2.34375e-06 * 4), (0.5, 2.34375e-06 * 2 ** 10)]
     for i in range(12 if q else 200):
